@@ -243,13 +243,19 @@ pub fn exec(sc: &Scenario) -> Outcome {
                     let mut off = 0usize; let mut complete = 0usize; let mut viol_seen = false;
                     for q in v { off += q.bytes.len(); if off <= p { if q.kind == K_PROTO { viol_seen = true; } complete += 1; } else { break; } }
                     // the server reads at most 8192 bytes and answers with bounded sends per turn
-                    let budget = if slow > 0 { 4000 + p / 16 } else { 8 + p / 2048 };
+                    // (the budget counts loop turns in which this client received nothing at all: large replies through small
+                    // socket buffers or to a slow reader take many turns, and every one of them makes progress)
+                    let budget = 8 + p / 2048;
                     let mut turns = 0;
-                    while (h.cs[ci].n_replies as usize) < complete && turns < budget && h.dead.is_none() && h.cs[ci].proto_err.is_none() { h.turn(); turns += 1; }
+                    while (h.cs[ci].n_replies as usize) < complete && turns < budget && h.dead.is_none() && h.cs[ci].proto_err.is_none() {
+                        let rx0 = h.sim.clients[ci].total_rx;
+                        h.turn();
+                        if h.sim.clients[ci].total_rx > rx0 { turns = 0; } else { turns += 1; }
+                    }
                     h.count("sync_points", 1);
                     if (h.cs[ci].n_replies as usize) < complete && !viol_seen && h.cs[ci].proto_err.is_none() && !h.sim.clients[ci].eof {
                         let q = &v[h.cs[ci].n_replies as usize];
-                        h.violate(format!("C05/reply-withheld/{}", req_name(&q.bytes)), format!("connection {}: {} requests ({} bytes) are completely delivered and the client waits, but only {} replies arrived within {} loop turns; first unanswered: `{}`", c, complete, p, h.cs[ci].n_replies, budget, resp::escape(&q.bytes[..q.bytes.len().min(60)])));
+                        h.violate(format!("C05/reply-withheld/{}", req_name(&q.bytes)), format!("connection {}: {} requests ({} bytes) are completely delivered and the client waits, but only {} replies arrived and the client then received nothing for {} loop turns; first unanswered: `{}`", c, complete, p, h.cs[ci].n_replies, budget, resp::escape(&q.bytes[..q.bytes.len().min(60)])));
                     }
                 }
             }
